@@ -65,6 +65,15 @@ let ch_det hex lim obs =
       if m <> '?' && m <> o then
         mismatch "det" (Printf.sprintf "node=%d det=%s model=%c obs=%c input=%s limit=%s" i (string_of_bytes (obs_of (nat_of_int i) |> fst)) m o hex lim)
     end) vs;
+  (* the same nodes through the functions translated from the current source (Gen/SrcFuncs.v): validates the translator,
+     Panic against Go's own panic ('P') included *)
+  List.iteri (fun i v ->
+    let m = verdict_char v in
+    if i < String.length obs then begin
+      let o = obs.[i] in
+      if m <> '?' && m <> o then
+        mismatch "det" (Printf.sprintf "node=%d det=%s source-translation=%c obs=%c input=%s limit=%s" i (string_of_bytes (obs_of (nat_of_int i) |> fst)) m o hex lim)
+    end) (src_verdicts raw l);
   if String.length obs <> List.length vs then
     mismatch "det" (Printf.sprintf "node-count model=%d obs=%d" (List.length vs) (String.length obs))
 
